@@ -95,7 +95,7 @@ def run(ctx):
     files = spec_files(ctx)
     behs = []
     # (M) exhaustive: every crash point of every small history; one witness per crash class
-    for cfg in (["MC_quick.cfg"] if q else ["MC_quick.cfg", "MC_k1.cfg", "MC_big.cfg", "MC_big2.cfg"]):
+    for cfg in (["MC_quick.cfg", "MC_k1.cfg"] if q else ["MC_quick.cfg", "MC_k1.cfg", "MC_big.cfg", "MC_big2.cfg"]):
         if not ctx.want(cfg[:-4]):
             continue
         mc = ctx.tlc("crash", "Crash", cfg, workers=1 if cfg in ("MC_quick.cfg", "MC_k1.cfg") else 8, files=files, timeout=3000)
@@ -132,7 +132,7 @@ def run(ctx):
         for k in sorted(by, key=lambda x: (x != "c1", x)):
             pick.append(by[k].pop(0))
         rest = [c for k in sorted(by) for c in by[k]]
-        full, part = (pick + rest)[:5], part[:30]
+        full, part = (pick + rest)[:5], part[:40]
     else:
         rnd.shuffle(full)
         rnd.shuffle(part)
